@@ -652,7 +652,7 @@ func (c *Ctx) checkLoops(rr *core.RuleResult, f *core.Func, readFn *core.Func) {
 					// for h := pop(); h != nil; h = pop(): one announced here-document per iteration
 					progress[edge{b.Index, b.Succs[0].Index}] = "pop"
 					continue
-				case fs.Cond != nil && strings.Contains(exprStr(fs.Cond), "atomic.Load"):
+				case fs.Cond != nil && containsAtomicLoad(info, fs.Cond):
 					// wait loop on the announcement counter (CC6)
 					progress[edge{b.Index, b.Succs[0].Index}] = "counter-wait"
 					continue
